@@ -100,7 +100,7 @@ CLAIMED.update({
    design="4/C13"),
  "C14": dict(
    text="Deductive proof that subscription expiry follows the stored ttl: CreateSubscription stamps expires_at = now + ttl, deliverToSubscription computes delivery expiry from the subscription's message ttl, applyResults (every successful pull) pushes expires_at to now + ttl, "
-        "and DeleteExpiredSubscriptions soft-deletes exactly the live subscriptions whose expires_at has passed (and none other), waking their waiters.",
+        "and DeleteExpiredSubscriptions soft-deletes exactly the live subscriptions whose expires_at has passed (and none other), waking their waiters."
         " The pull action's body run with one transaction per step (as ExecuteClient does) restarts the clock in a committed transaction for every pull that finds its subscription, however the pull ends (cancelled, timed out, empty or not): postcondition pull_restarts_clock.",
    note="The transaction runner handed to the pull action's body is an assumed contract (runs its argument once in a fresh transaction, rolls back on error or commit failure); DoCtxTxRetry's retry loop itself is not verified. "+TRUST,
    design="4/C14"),
